@@ -23,6 +23,8 @@ def fault(name):
     """exception object for a connection-level fault name: an errno name, or 'SSLEOF' """
     if name == "SSLEOF":
         return ssl.SSLEOFError(ssl.SSL_ERROR_EOF, "EOF occurred in violation of protocol")
+    if name == "SSLERR":      # any other failure of the TLS handshake (bad record, no shared cipher, certificate refused, ...)
+        return ssl.SSLError(ssl.SSL_ERROR_SSL, "[SSL] handshake failure")
     code = getattr(errno, name)
     cls = {errno.ECONNRESET: ConnectionResetError, errno.EPIPE: BrokenPipeError,
            errno.ECONNREFUSED: ConnectionRefusedError, errno.ETIMEDOUT: TimeoutError}.get(code, OSError)
